@@ -546,6 +546,9 @@ def run(repo, rep):
         if cf is not None and ps3_7.COMMAND_FIELD.get(c.name) != cf:
             rep.bad('C07.D5', 'dimsemessages:MESSAGE_TYPE:%s' % c.name, c.loc(),
                     '%s has command field %04XH, which PS3.7 Table E.1-1 does not assign to it' % (c.name, cf))
+    w_ = repo.table_writers('dimsemessages', 'MESSAGE_TYPE')
+    rep.check(not w_, 'C07.D5', 'dimsemessages:MESSAGE_TYPE:constant-after-import', dm.relpath,
+              'no function re-binds or mutates the dispatch table', '; '.join(w_))
     # a code outside the table must not be turned into a message
     try:
         res = PEval(repo).call_function(c2m, [{(0x0000, 0x0100): Record(value=0x7777, VR='US', VM=1)}], {}, None)
